@@ -136,3 +136,62 @@ func (c *countingDiscard) Write(p []byte) (int, error) { c.n += int64(len(p)); r
 
 var _ = bytes.Equal
 var _ = fmt.Sprint
+
+// TestC08Crowded: an old build with a few hundred pairwise different blocks that all share one weak
+// hash (one bucket of the block library), and a new build that has the same file plus copies of the
+// first, a middle and the last of those blocks: everything is in the old build, nothing is fresh.
+func TestC08Crowded(t *testing.T) {
+	Ev.Property = "C08"
+	ft := &fatalT{t: t}
+	for _, nblocks := range []int{300, 700} {
+		if nblocks > 300 && Tier() != "thorough" {
+			continue
+		}
+		base := Bytes(uint64(nblocks), BlockSize)
+		for i := range base {
+			// room for the nudges below
+			if base[i] < 2 {
+				base[i] = 2
+			}
+			if base[i] > 253 {
+				base[i] = 253
+			}
+		}
+		crowd := make([]byte, 0, nblocks*BlockSize)
+		for k := 0; k < nblocks; k++ {
+			blk := append([]byte{}, base...)
+			if k > 0 {
+				// (+1, -2, +1) at a position of its own: same sum, same weighted sum
+				i := 3 * k
+				blk[i]++
+				blk[i+1] -= 2
+				blk[i+2]++
+			}
+			crowd = append(crowd, blk...)
+		}
+		old := Tree{"crowd.bin": &Entry{Kind: KFile, Data: crowd}}
+		nw := old.Clone()
+		pick := []int{0, nblocks / 2, 257, nblocks - 1}
+		for _, k := range pick {
+			nw[fmt.Sprintf("copy%03d.bin", k)] = &Entry{Kind: KFile, Data: crowd[k*BlockSize : (k+1)*BlockSize]}
+		}
+		dir, cleanup := RunDir()
+		oldDir, newDir := dir+"/old", dir+"/new"
+		Must(old.Materialize(oldDir), "old")
+		Must(nw.Materialize(newDir), "new")
+		dr := Diff(oldDir, newDir, &pwr.CompressionSettings{Algorithm: pwr.CompressionAlgorithm_NONE}, DiffSeams{})
+		cleanup()
+		if dr.Err != nil || dr.Panic != "" {
+			Violation(ft, "C08/diff-failed", "WritePatch failed: %v %s", dr.Err, dr.Panic)
+			return
+		}
+		if dr.Fresh != 0 {
+			Violation(ft, "C08/identical-file-resent", "the old build has a file of %d different blocks with one and the same weak hash; the new build has that file and copies of blocks %v of it, yet the patch carries %d fresh bytes (reused %d)", nblocks, pick, dr.Fresh, dr.Reused)
+			return
+		}
+		Ev.Probe("more_than_256_different_blocks_share_one_weak_hash")
+		Ev.Eval(uint64(nblocks)*977, true, func() interface{} {
+			return map[string]interface{}{"blocks_in_one_bucket": nblocks, "patch_bytes": len(dr.Patch), "fresh": dr.Fresh, "reused": dr.Reused}
+		})
+	}
+}
